@@ -102,12 +102,21 @@ Fixpoint spec_deletes (q : N) (script : list revent) (n : nat) : option (option 
 (* ---------- per-call checks; q = number the transport gave to the call's first request ---------- *)
 Definition fault_at (faults : list (option Z)) (i : nat) : bool := match nth_error faults i with Some (Some _) => true | _ => false end.
 
+(* outside the fault model (a receive that fails for good, silence, a tenth transient failure, a malformed ACK) the property
+   still forbids one thing: success without acknowledgement.  When no message anywhere in the script acknowledges request q
+   with errno 0, the call must fail. *)
+Definition acked0_somewhere (q : N) (script : list revent) : bool :=
+  existsb (fun ev => match ev with
+                     | RMsg ty sq d => (sq =? q) && (ty =? UAPI_NLMSG_ERROR) && (4 <=? length d)%nat && (uword_at d 0 =? 0)
+                     | _ => false end) script.
+Definition unacked_must_fail (q : N) (script : list revent) (r : cres) : bool := acked0_somewhere q script || is_fail r.
+
 Definition chk_c08_call (o : cop) (q : N) (script : list revent) (r : cres) : bool :=
   match o with
   | OSet _ _ true | ODeleteRule _ =>
-      match spec_ack q script with VAck e _ => res_for_errno false e r | VForeign => is_fail r | VOut => true end
+      match spec_ack q script with VAck e _ => res_for_errno false e r | VForeign => is_fail r | VOut => unacked_must_fail q script r end
   | OAddRule _ =>
-      match spec_ack q script with VAck e _ => res_for_errno true e r | VForeign => is_fail r | VOut => true end
+      match spec_ack q script with VAck e _ => res_for_errno true e r | VForeign => is_fail r | VOut => unacked_must_fail q script r end
   | OGetStatus =>
       match spec_ack q script with
       | VAck e rest =>
@@ -119,7 +128,7 @@ Definition chk_c08_call (o : cop) (q : N) (script : list revent) (r : cres) : bo
             end
           else cres_eqb r (RFail (EErrno e))
       | VForeign => is_fail r
-      | VOut => true
+      | VOut => unacked_must_fail q script r
       end
   | OGetRules =>
       match spec_ack q script with
@@ -132,7 +141,7 @@ Definition chk_c08_call (o : cop) (q : N) (script : list revent) (r : cres) : bo
             end
           else cres_eqb r (RFail (EErrno e))
       | VForeign => is_fail r
-      | VOut => true
+      | VOut => unacked_must_fail q script r
       end
   | ODeleteRules =>
       match spec_ack q script with
@@ -150,7 +159,7 @@ Definition chk_c08_call (o : cop) (q : N) (script : list revent) (r : cres) : bo
             end
           else cres_eqb r (RFail (EErrno e))
       | VForeign => is_fail r
-      | VOut => true
+      | VOut => unacked_must_fail q script r
       end
   | _ => true
   end.
